@@ -1,7 +1,8 @@
 (* C17 - pinned statements. *)
 From Coq Require Import List ZArith Reals Permutation.
 From Flocq Require Import Core.
-From PMH Require Import Lib.ListArr Lib.FloatFacts Model.FYShuffle Proofs.FYShuffle.
+From Coq Require Import Factorial.
+From PMH Require Import Lib.ListArr Lib.FloatFacts Model.FYShuffle Proofs.FYShuffle Proofs.FYUniform.
 Import ListNotations.
 Close Scope R_scope.
 Open Scope nat_scope.
@@ -54,9 +55,29 @@ Proof.
   - unfold fy_cur, fy_reset; cbn. destruct (fm s); reflexivity.
 Qed.
 
+(* uniformity: with the index offset c_t given directly (0 <= c_t < m - t), every permutation of
+   0..m-1 is the output of exactly one choice vector ... *)
+Theorem C17_every_order_has_exactly_one_choice_vector : forall m sigma, 1 <= m -> Permutation sigma (seq 0 m) ->
+  exists cs, (length cs = m /\ choices_ok 0 m cs /\ exists s', fy_draws cpick (fy_reset (fy_new m)) cs = Ok (s', sigma)) /\
+    forall cs', length cs' = m -> choices_ok 0 m cs' ->
+      (exists s', fy_draws cpick (fy_reset (fy_new m)) cs' = Ok (s', sigma)) -> cs' = cs.
+Proof. exact fy_order_has_unique_choice. Qed.
+
+(* ... and there are m! choice vectors: under independent uniform choices each order has probability 1/m! *)
+Theorem C17_choice_vectors_counted : forall n,
+  length (all_choices n) = fact n /\ forall cs, In cs (all_choices n) <-> (length cs = n /\ choices_ok 0 n cs).
+Proof. intros n. split; [exact (all_choices_count n)|exact (all_choices_spec n)]. Qed.
+
+(* the in-range choice is what the code's index computation returns when the generator output maps to it *)
+Theorem C17_choice_is_identity_in_range : forall u n, (0 <= u < n)%Z -> cpick u n = u.
+Proof. exact cpick_id. Qed.
+
 Print Assumptions C17_index_bound_binary64.
 Print Assumptions C17_index_bound_model.
 Print Assumptions C17_block_is_permutation.
 Print Assumptions C17_reset_forgets.
 Print Assumptions C17_reset_as_new.
 Print Assumptions C17_new_and_reset_are_block_starts.
+Print Assumptions C17_every_order_has_exactly_one_choice_vector.
+Print Assumptions C17_choice_vectors_counted.
+Print Assumptions C17_choice_is_identity_in_range.
